@@ -1,0 +1,71 @@
+//go:build verif
+
+// Contracts for the transaction methods driven by the ctl action (package corazawaf), checked by /verif/govc
+// (comment-only file; no code).
+package corazawaf
+
+// ---------------------------------------------------------------- observers used by ctl
+//@ func (*RuleGroup).GetRules props C17,C07
+//@   modifies nothing
+//@   ensures result == rg.rules
+// ((*Rule).ID is the promoted (*corazarules.RuleMetadata).ID: its contract is in internal/corazarules/zz_contracts_ctl_verif.go)
+//@ func (*Transaction).LastPhase props C02,C08,C07
+//@   modifies nothing
+//@   ensures result == tx.lastPhase
+//@ func (*Transaction).SetDebugLogLevel props C07
+//@   requires !isnil(tx.debugLogger)
+//@   modifies tx.debugLogger
+//@   ensures !isnil(tx.debugLogger)
+
+// Variables hands out the transaction's own variable set; its body-processor getters return their own field (this is
+// what /verif/specs/ctl.spec assumes for calls through the plugintypes.TransactionVariables interface).
+//@ func (*Transaction).Variables props C07
+//@   modifies nothing
+//@   ensures typeof(result) == tag("*TransactionVariables") && payload(result, "*TransactionVariables") != nil
+//@   ensures payload(result, "*TransactionVariables").reqbodyProcessor == tx.variables.reqbodyProcessor
+//@   ensures payload(result, "*TransactionVariables").resBodyProcessor == tx.variables.resBodyProcessor
+//@ func (*TransactionVariables).RequestBodyProcessor props C07
+//@   modifies nothing
+//@   ensures typeof(result) == tag("*collections.Single") && payload(result, "*collections.Single") == v.reqbodyProcessor
+//@ func (*TransactionVariables).ResponseBodyProcessor props C07
+//@   modifies nothing
+//@   ensures typeof(result) == tag("*collections.Single") && payload(result, "*collections.Single") == v.resBodyProcessor
+
+// ---------------------------------------------------------------- run-time target exclusions (C17)
+
+// exclAt(tx, id, j, v, key, rx): entry j of the transaction's exclusion list for rule id is the exclusion (v, key, rx).
+//@ define exclAt(tx *Transaction, id int, j int, v variables.RuleVariable, key string, rx *regexp.Regexp) bool :=
+//@     tx.ruleRemoveTargetByID[id][j].Variable == v && tx.ruleRemoveTargetByID[id][j].KeyStr == key && tx.ruleRemoveTargetByID[id][j].KeyRx == rx
+// exclOldAt(tx, id, j): entry j of the list of rule id is what it was on entry.
+//@ define exclOldAt(tx *Transaction, id int, j int) bool :=
+//@     tx.ruleRemoveTargetByID[id][j].Variable == old(tx.ruleRemoveTargetByID[id][j].Variable) && tx.ruleRemoveTargetByID[id][j].KeyStr == old(tx.ruleRemoveTargetByID[id][j].KeyStr) &&
+//@     tx.ruleRemoveTargetByID[id][j].KeyRx == old(tx.ruleRemoveTargetByID[id][j].KeyRx)
+
+// TargetsSep: the exclusion lists of different rule ids live in different arrays (each list is only ever extended by
+// appending to itself), so extending one list cannot overwrite an entry of another; a list that exists is not empty.
+//@ define TargetsSep(tx *Transaction) bool := tx.ruleRemoveTargetByID != nil &&
+//@     (forall k int :: has(tx.ruleRemoveTargetByID, k) ==> len(tx.ruleRemoveTargetByID[k]) >= 1) &&
+//@     (forall a int, b int :: a != b && has(tx.ruleRemoveTargetByID, a) && has(tx.ruleRemoveTargetByID, b) ==> base(tx.ruleRemoveTargetByID[a]) != base(tx.ruleRemoveTargetByID[b]))
+
+// RemoveRuleTargetByID (ctl:ruleRemoveTargetById=ID;VARIABLE:KEY): the exclusion (variable, key, keyRx) is appended to
+// the transaction's own list for that rule id -- one new entry, the last one, carrying exactly the three values; the
+// earlier entries of that id are kept, the lists of all other ids are left alone (the same slices with the same
+// entries: `entries`), and nothing but the transaction's own map and that list's array is written: every target list that
+// existed before and is not this list (in particular the target lists of the shared rules) is as it was.
+//@ func (*Transaction).RemoveRuleTargetByID props C17,C08,C02,C07
+//@   requires TargetsSep(tx)
+//@   modifies mapof(tx.ruleRemoveTargetByID), ruleVariableParams.Count, ruleVariableParams.Variable, ruleVariableParams.KeyRx, ruleVariableParams.KeyStr, ruleVariableParams.Exceptions
+//@   excludes Rule, RuleGroup, WAF, globals
+//@   ensures present: has(tx.ruleRemoveTargetByID, id)
+//@   ensures oneMore: len(tx.ruleRemoveTargetByID[id]) == ite(old(has(tx.ruleRemoveTargetByID, id)), old(len(tx.ruleRemoveTargetByID[id])), 0) + 1
+//@   ensures last: exclAt(tx, id, len(tx.ruleRemoveTargetByID[id]) - 1, variable, key, keyRx)
+//@   ensures othersKept: forall k int :: k != id ==> has(tx.ruleRemoveTargetByID, k) == old(has(tx.ruleRemoveTargetByID, k)) &&
+//@       tx.ruleRemoveTargetByID[k] == old(tx.ruleRemoveTargetByID[k])
+// every entry of every list afterwards is either the new last entry of the list of id or an entry that was there before, unchanged
+//@   ensures entries: forall k int, j int :: has(tx.ruleRemoveTargetByID, k) && 0 <= j && j < len(tx.ruleRemoveTargetByID[k]) ==>
+//@       ite(k == id && j == len(tx.ruleRemoveTargetByID[id]) - 1, exclAt(tx, k, j, variable, key, keyRx),
+//@           old(has(tx.ruleRemoveTargetByID, k)) && j < old(len(tx.ruleRemoveTargetByID[k])) && exclOldAt(tx, k, j))
+//@   ensures sep: TargetsSep(tx)
+//@   ensures sharedTargetsKept: forall s []ruleVariableParams, j int :: !fresh(s) && 0 <= j && j < len(s) &&
+//@       (!old(has(tx.ruleRemoveTargetByID, id)) || base(s) != old(base(tx.ruleRemoveTargetByID[id]))) ==>
+//@       s[j].Variable == old(s[j].Variable) && s[j].KeyStr == old(s[j].KeyStr) && s[j].KeyRx == old(s[j].KeyRx) && s[j].Count == old(s[j].Count) && s[j].Exceptions == old(s[j].Exceptions)
